@@ -20,7 +20,7 @@ RULE = ("cases = generated flat constraint programs (1-4 scalar/enum fields of w
 ASSUMPTIONS = [
     "reference semantics: context-width propagation, sign-extension iff both operands of a node are signed (per-node rule)",
     "python int literals within int32; sized literals within their width; ~ only on 1-bit operands; / % with non-zero literal divisor and an unsigned dividend; * / % on operands <= 8 bits",
-    "every generated top-level statement references at least one field (literal-only statements: recorded finding)",
+    "statements that reference no field (literal-only comparisons) are generated too: they must hold like any other",
 ]
 WANT = ("C02",)
 
